@@ -379,7 +379,7 @@ def run(ctx):
 
     res = clijobs.pmap(do_case, list(enumerate(cases)))
 
-    fails = {}      # (key, what) -> {combo: example}
+    fails = {}      # key -> {combo: {whats, example}}
     universe = {}   # key -> set of combos on which the sandbox error is demanded
     n_refused = n_allowed = 0
     for (f, labels, srcs, ok, form, pos, mode, offv), r in zip(cases, res):
@@ -407,20 +407,22 @@ def run(ctx):
         elif r["cls"] == "returned":
             n_allowed += 1
         ctx.outcome(f"{f['cls']}:{'well-typed' if ok else 'ill-typed'}:{r['cls']}")
-        if whats:
-            w = "; ".join(sorted(set(whats)))
-            fails.setdefault((k, w), {}).setdefault(combo, {"program": r["src"], "args": r["args"], "stdout": r["out"], "stderr": r["err"], "arguments": list(labels), "import_form": form,
-                                                             "stdin_fed_after_hold": r["fed"]})
-    for (k, w), combos in sorted(fails.items()):
+        for w in set(whats):
+            fails.setdefault(k, {}).setdefault(combo, {"whats": set(), "example": None})["whats"].add(w)
+        if whats and fails[k][combo]["example"] is None:
+            fails[k][combo]["example"] = {"program": r["src"], "args": r["args"], "stdout": r["out"], "stderr": r["err"], "arguments": list(labels), "import_form": form,
+                                          "stdin_fed_after_hold": r["fed"]}
+    for k, combos in sorted(fails.items()):
         uni = universe.get(k, set())
         if uni and set(combos) >= uni:
-            ex = combos[sorted(combos)[0]]
+            ex = combos[sorted(combos)[0]]["example"]
+            w = "; ".join(sorted(set().union(*[c["whats"] for c in combos.values()])))
             ctx.violation(f"{k} at every call position in both sandbox modes: {w}", dict(ex, positions=sorted(f"{p} / {m}" for p, m in combos)),
                           cli_cmd=f"garden {' '.join(ex['args'])}   # stdin: a pipe that stays open")
         else:
             for combo in sorted(combos):
-                ex = combos[combo]
-                ctx.violation(f"{k} @ {combo[0]} in {combo[1]}: {w}", ex, cli_cmd=f"garden {' '.join(ex['args'])}   # stdin: a pipe that stays open")
+                ex = combos[combo]["example"]
+                ctx.violation(f"{k} @ {combo[0]} in {combo[1]}: {'; '.join(sorted(combos[combo]['whats']))}", ex, cli_cmd=f"garden {' '.join(ex['args'])}   # stdin: a pipe that stays open")
 
     # ---- observed only: `import` of a local file while sandboxed (reads the file; not the filesystem API)
     d = os.path.join(root, "imp")
